@@ -325,11 +325,25 @@ def r4_reachable_state(m):
                 if not isinstance(n, ast.Assign):
                     continue
                 for t in n.targets:
-                    if not (isinstance(t, ast.Attribute) and isinstance(t.value, ast.Name) and t.value.id == "self"):
+                    if not (isinstance(t, ast.Attribute) and isinstance(t.value, ast.Name)):
                         continue
+                    if t.value.id != "self" and not any(isinstance(x, ast.Call) for x in ast.walk(n.value)):
+                        continue            # `other.attr = <plain value>`: nothing copy/pickle could refuse
                     r.instances += 1
                     v, why = n.value, None
-                    if isinstance(v, ast.Lambda):
+                    # a regex match object (kept, for instance, to avoid matching a line twice) cannot be pickled
+                    for x in ([v] + (list(v.values) if isinstance(v, ast.BoolOp) else []) + ([v.body, v.orelse] if isinstance(v, ast.IfExp) else [])):
+                        if isinstance(x, ast.Call):
+                            d_ = A.dotted(x.func) or ""
+                            ent = m.resolve_name_in_func(f, x.func.id) if isinstance(x.func, ast.Name) else None
+                            if (isinstance(x.func, ast.Attribute) and x.func.attr in ("match", "search", "fullmatch") and
+                                not (isinstance(x.func.value, ast.Name) and m.class_of_name(f, x.func.value.id))) \
+                                    or d_ in ("re.match", "re.search", "re.fullmatch") \
+                                    or (ent and ent.get("kind") == "regex_method" and ent.get("method") in ("match", "search", "fullmatch")):
+                                why = "a regex match object"
+                    if why:
+                        pass
+                    elif isinstance(v, ast.Lambda):
                         why = "a lambda"
                     elif isinstance(v, ast.GeneratorExp):
                         why = "a generator"
@@ -344,10 +358,10 @@ def r4_reachable_state(m):
                     ok = why is None or bool(custom)
                     r.ob(ok, "%s.%s: self.%s" % (c["name"], meth.name, t.attr) if r.instances % 40 == 0 else None)
                     if not ok:
-                        r.fail("%s.%s|self.%s|%s" % (c["name"], meth.name, t.attr, why.split()[-1]),
-                               "%s.%s stores %s in self.%s and the class has no __getstate__/__reduce__ leaving it out: every tree node "
+                        r.fail("%s.%s|%s.%s|%s" % (c["name"], meth.name, t.value.id, t.attr, why.split()[-1]),
+                               "%s.%s stores %s in `%s` and the class has no __getstate__/__reduce__ leaving it out: every tree node "
                                "refers to its reader through its item, so copy.deepcopy/pickle of a tree built with this object fails "
-                               "(TypeError/AttributeError: cannot pickle)" % (c["name"], meth.name, why, t.attr), m.loc(f, n))
+                               "(TypeError/AttributeError: cannot pickle)" % (c["name"], meth.name, why, A.text(t)), m.loc(f, n))
     return r
 
 
@@ -563,8 +577,72 @@ def r7_hooks(m):
     return r
 
 
+NODE_LINKS = {"parent", "items", "content", "item", "string", "separator"}
+
+
+def link_scan(func):
+    """assignments `<a>.attr = <b>` in one function where both a and b are parse-tree nodes taken from a content/items collection (loop
+    variables over it, or names assigned from such names) and attr is not one of the tree's own links"""
+    nodes = set()
+    changed = True
+    while changed:
+        changed = False
+        for n in ast.walk(func):
+            if isinstance(n, ast.For) and isinstance(n.target, ast.Name):
+                it = A.text(n.iter)
+                if any(w in it for w in ("content", ".items", "children")) or (isinstance(n.iter, ast.Name) and n.iter.id in ("content", "items")):
+                    if n.target.id not in nodes:
+                        nodes.add(n.target.id)
+                        changed = True
+            if isinstance(n, ast.Assign) and len(n.targets) == 1 and isinstance(n.targets[0], ast.Name) and isinstance(n.value, ast.Name) \
+                    and n.value.id in nodes and n.targets[0].id not in nodes:
+                nodes.add(n.targets[0].id)
+                changed = True
+    out = []
+    for n in ast.walk(func):
+        if isinstance(n, ast.Assign):
+            for t in n.targets:
+                if isinstance(t, ast.Attribute) and isinstance(t.value, ast.Name) and t.value.id in nodes and t.attr not in NODE_LINKS \
+                        and isinstance(n.value, ast.Name) and n.value.id in nodes:
+                    out.append((n, t))
+    return out
+
+
+_LINK_POSITIVE = """
+def init(self, content):
+    previous = None
+    for child in content:
+        child.previous_sibling = previous
+        if previous is not None:
+            previous.next_sibling = child
+        previous = child
+        child.parent = self
+"""
+
+
+def r8_no_cross_links(m):
+    r = RuleResult("C18.R8", "nodes of one block are not chained to each other (sibling / neighbour links): copy.deepcopy and pickle follow "
+                             "such a chain recursively, one Python frame per statement, and fail on long blocks; the tree's links are "
+                             "parent, items and content only")
+    r.floor = 500
+    got = link_scan(ast.parse(_LINK_POSITIVE).body[0])
+    if sorted(t.attr for n, t in got) != ["next_sibling", "previous_sibling"]:
+        r.error("the positive example is no longer recognised: %s" % [t.attr for n, t in got])
+        return r
+    for (path, q), f in sorted(m.funcs.items()):
+        if not f.module.startswith("fparser.two"):
+            continue
+        r.instances += 1
+        for n, t in link_scan(f.node):
+            r.fail("%s|cross-link|%s" % (q, t.attr), "%s links one node of a block to another through `%s` (`%s`): deep-copying or pickling "
+                   "the tree then recurses along that chain, once per statement of the block (RecursionError from a few hundred "
+                   "statements)" % (q, t.attr, A.text(n)[:60]), m.loc(f, n))
+    r.ob(True, "%d functions scanned" % r.instances)
+    return r
+
+
 def run(m, tier):
-    results = [r1_newargs_vs_new(m), r2_attrs_set(m), r3_no_custom_protocol(m), r4_reachable_state(m), r5_no_back_reference(m), r6_importable(m), r7_hooks(m)]
+    results = [r1_newargs_vs_new(m), r2_attrs_set(m), r3_no_custom_protocol(m), r4_reachable_state(m), r5_no_back_reference(m), r6_importable(m), r7_hooks(m), r8_no_cross_links(m)]
     expl = ("Decides that the copy protocol is well-typed over the whole node class hierarchy: for each of the ~500 node classes the "
             "tuple returned by its resolved __getnewargs__ binds to its resolved __new__, the _deepcopy flag is True and, under that "
             "flag, __new__ returns a fresh object without running a matcher or touching the stored text (abstract interpretation of "
